@@ -21,6 +21,34 @@ ASSUMPTIONS = ["PositionMarker.from_child_markers is the hull of the children (o
 TRUSTED_BASE = ["hand model Model/MatchResult.v (tied to the code by C02's correspondence)", "harness/treecheck.py tree walker"]
 
 
+LOOP_TEMPLATES = [
+    "SELECT\n{% for col in ['a', 'b', 'c'] %}\n    {{ col }}{% if not loop.last %},{% endif %}\n{% endfor %}\nFROM tbl\n",
+    # a construct that starts in one iteration and is finished by text the NEXT iteration emits (earlier in the source)
+    "SELECT\n{% for col in ['a', 'b'] %}\n    {% if not loop.first %}AS alias_{{ loop.index - 1 }},{% endif %}\n    {{ col }}\n{% endfor %}\nAS last_alias FROM tbl\n",
+    "SELECT * FROM tbl WHERE\n{% for v in [1, 2, 3] %}{% if not loop.first %} {{ v }} {% endif %}{% if not loop.last %}{% if not loop.first %}AND {% endif %}col_{{ v }} <{% endif %}{% endfor %}\n",
+    "SELECT {% for c in ['a', 'b', 'c'] %}{% if not loop.first %}) + {% endif %}f({{ c }}{% endfor %}) AS x FROM t\n",
+    "SELECT {% for c in ['a', 'b'] %}{{ c }} + {% endfor %}0 AS total FROM t\n",
+    "SELECT 1 FROM t WHERE {% for c in ['a', 'b'] %}{% if not loop.first %}1 AND {% endif %}{{ c }} ={% endfor %} 2\n",
+    "SELECT a FROM {% for t in ['x', 'y'] %}{% if not loop.first %}ON x.id = y.id {% endif %}{{ t }} {% if loop.first %}JOIN {% endif %}{% endfor %}\n",
+    "{% for s in [1, 2] %}{% if not loop.first %}b FROM t{{ s }};\n{% endif %}SELECT a{{ s }}, {% endfor %}c FROM u\n",
+    "SELECT CASE {% for v in [1, 2] %}{% if not loop.first %}THEN {{ v }} {% endif %}WHEN x = {{ v }} {% endfor %}THEN 0 END FROM t\n",
+]
+
+# bracketed forms of every kind of content (the bracket handling of the parser adds its own Indent/Dedent pair around the content's)
+BRACKETED = [
+    "SELECT * FROM (tbl_a JOIN tbl_b ON tbl_a.x = tbl_b.x)\n",
+    "SELECT * FROM ((a JOIN b ON a.x = b.x) JOIN c ON c.y = a.y)\n",
+    "SELECT * FROM (tbl_a)\n",
+    "SELECT * FROM (tbl_a AS a JOIN tbl_b AS b USING (x)) WHERE (a.x > 1)\n",
+    "(SELECT 1) UNION (SELECT 2 FROM (t JOIN u ON t.a = u.a))\n",
+    "SELECT (a + b) * (c - d), f(x, (y)), CASE WHEN (a) THEN (b) ELSE (c) END FROM (SELECT 1 AS a) AS t\n",
+    "INSERT INTO t (a, b) VALUES (1, 2), (3, (4))\n",
+    "WITH x AS (SELECT 1 AS a) SELECT a FROM (x) WHERE a IN (1, 2) AND EXISTS (SELECT 1 FROM (x JOIN x AS y ON x.a = y.a))\n",
+    "CREATE TABLE t (a INT, b VARCHAR(10), PRIMARY KEY (a))\n",
+    "SELECT a FROM t GROUP BY (a), (b) ORDER BY (a) DESC\n",
+]
+
+
 def static_balance(ctx):
     dump = getattr(ctx, "indent_dump", None)
     if dump is None:
@@ -63,4 +91,23 @@ def run(ctx, coq_ok):
         for key, what in res["c03"]:
             ctx.violation("tree-" + key, "%s (dialect %s)" % (what, d), {"input": {"dialect": d, "label": label, "sql": sql}},
                           attrs={"kind": key, "unparsable": bool(res["unparsable"])})
+    # templated sources: source positions are not monotone in the templated file (loops), so "source span = hull of the children" is checked
+    # on trees whose nodes straddle loop iterations, and on generated templates
+    tjobs = [("jinja", 0, "loop-%d" % i, t) for i, t in enumerate(LOOP_TEMPLATES)] + [("raw", None, "bracketed-%d" % i, t) for i, t in enumerate(BRACKETED)]
+    for i in range(60 if ctx.tier == "quick" else 600):
+        tjobs.append(("jinja", i % 2, "jinja-gen", corpus.gen_jinja(rng)))
+    for i in range(10 if ctx.tier == "quick" else 60):
+        tjobs.append(("python", None, "py-gen", corpus.gen_pyformat(rng)))
+    for (tpl, style, label, src), st, res in corpus.pmap("harness.treecheck", "tparse_case", tjobs):
+        if st != "ok":
+            ctx.broken_obligation("harness worker crashed on %s" % label, res)
+            continue
+        nontriv = bool(res.get("templated")) or label.startswith("bracketed")
+        ctx.case(("ttree", tpl, src) if nontriv else None,
+                 bucket="ttree:%s" % ("exc" if res["exc"] else "no-tree" if res["unparsable"] is None else "loop" if res.get("loops") else "templated" if res.get("templated") else "plain"),
+                 sample={"templater": tpl, "source": src[:120], "tokens": res["ntokens"]} if res.get("loops") and len(ctx.samples) < 6 else None)
+        for key, what in res["c03"]:
+            ctx.violation("tree-" + key, "%s (templater %s)" % (what, tpl), {"input": {"dialect": "ansi", "templater": tpl, "style": style, "label": label, "source": src}},
+                          attrs={"kind": key, "unparsable": bool(res["unparsable"]), "templater": tpl, "tmp": bool(res.get("tmp"))})
     ctx.coverage_extra["parsed_files"] = len(items)
+    ctx.coverage_extra["parsed_templated"] = len(tjobs)
